@@ -78,6 +78,27 @@ CHECKS.update({
             "That scipy.fft.<name> is the reference DFT is the trusted base; Dask branch is C09; nperseg in {1,2,3,4}, nchan in {1,2,3}."),
 })
 
+CHECKS.update({
+    "C07": ("Symbolic execution of the real Phase constructor, from_angles, day_frac and every arithmetic branch of __array_ufunc__ on EXACT-REAL "
+            "shadow values held in an object-field Phase: for every operand kind (Phase, scalar, 0-d/1-d arrays, dimensionless Quantity, "
+            "Angle/Quantity in cycles; both orders; real and imaginary phases and factors) the result is a Phase, its count integer-valued, "
+            "|frac| <= 1/2, its value the exact expression on the operands (i*i = -1 bookkeeping), floor-division/remainder/divmod exact, and "
+            "sin/cos receive the fraction only. Every witness is also run on the real float code, whose outcome must satisfy the same oracle.",
+            "EXACT REAL semantics: decides dispatch/type/sign/normalisation, NOT the 2^-52 accuracy of the two-double chains at float64 (the "
+            "solvers available do not finish day_frac even at a 10-bit float format); precision loss is visible only through the result type."),
+    "C16": ("Symbolic execution of the real constructors on a shape-only array whose dimensions are symbolic integers (ndim 0..5, 12 dtypes, six "
+            "classes): construction succeeds exactly when the class contract holds, else ValueError; every metadata argument (valid/invalid "
+            "units with symbolic magnitudes, non-scalars, invalid alignment / polarisation / meta / start_time values) by construction and by "
+            "assignment; the class invariant (incl. chan_bw == sample_rate for baseband) on every signal returned by the 26 operations of C14; "
+            "like() reproduces every attribute.", "Pickling and the Dask container helpers are outside (solver terms cannot be pickled)."),
+    "C17": ("Symbolic execution of Signal.__array_ufunc__/__array__ on signals with symbolic samples and distinct symbolic metadata: for an "
+            "enumerated list of ufuncs (23 incl. comparisons and a two-output ufunc) and every operand arrangement the values equal the ufunc on "
+            "the data, type and metadata are those of the first signal operand, out=/in-place forms return the given object with its own metadata, "
+            "reduce/accumulate/outer/at/matmul raise TypeError, array conversion (with dtype) yields the data.",
+            "The set of ufuncs is an enumerated list (only ufuncs with object loops can run on shadow values); the solver contributes the "
+            "for-all over sample values and metadata."),
+})
+
 NOT_APPLICABLE = {
     "C09": "Dask equivalence quantifies over chunk layouts, schedulers and laziness; the deciding code is Dask's graph construction and "
            "schedulers, which cannot run on solver terms (object-dtype dask arrays refuse np.exp; threads/processes cannot carry z3 terms) - "
